@@ -796,6 +796,13 @@ impl World {
                 let _ = self.parts[k].p.delete_contained_entities().await;
                 let _ = global().factory.delete_participant(&self.parts[k].p).await;
             }
+            "keyhash_e2e" => {
+                let values: Vec<Value> = st["values"].as_array().cloned().unwrap_or_default();
+                let t = st["type"].as_str().unwrap_or("T1").to_string();
+                for e in crate::keyhash::e2e(self, &t, &values).await {
+                    core.log(e);
+                }
+            }
             "merge_held" => {
                 let n = core.merge_held_user();
                 core.log(json!({"ev": "MergeHeld", "merged": n}));
